@@ -631,7 +631,100 @@ class Interp:
             return list(args[0]) if name == 'list' else tuple(args[0])
         if name == 'typing.cast' and len(args) == 2:
             return args[1]
+        if name in ('jax.numpy.zeros_like', 'numpy.zeros_like') and args and isinstance(args[0], Poly):
+            return Poly()
+        if name in ('jax.numpy.ones_like', 'numpy.ones_like') and args and isinstance(args[0], Poly):
+            return Poly.const(1)
+        if name in ('jax.numpy.einsum', 'numpy.einsum') and args and isinstance(args[0], str) and not kwargs:
+            out = _symbolic_einsum(args[0], args[1:])
+            if out is not None:
+                return out
         return Opaque(f'{name}(...)')
+
+
+def _symbolic_einsum(subscripts: str, operands: list) -> Any:
+    """einsum over small tensors given as nested lists of polynomials (explicit mode; an ellipsis stands for the sample axes
+    every entry is implicitly broadcast over, so it is dropped)."""
+    import itertools
+
+    spec = subscripts.replace(' ', '').replace('...', '')
+    if '->' not in spec:
+        return None
+    ins, out = spec.split('->')
+    ins = ins.split(',')
+    if len(ins) != len(operands) or not all(x.isalpha() or x == '' for x in ins + [out]):
+        return None
+
+    def depth_of(t):
+        d = 0
+        while isinstance(t, (list, tuple)) and t:
+            d += 1
+            t = t[0]
+        return d if isinstance(t, Poly) else None
+
+    # trailing letters beyond the nesting of the operands name the sample axes the polynomial entries are implicitly
+    # broadcast over: they must be the same in every operand and close the output
+    depths = [depth_of(op) for op in operands]
+    if any(d is None for d in depths):
+        return None
+    tails = {sub[d:] for sub, d in zip(ins, depths)}
+    if len(tails) != 1:
+        return None
+    tail = tails.pop()
+    if tail:
+        if not out.endswith(tail) or any(ch in sub[:d] for sub, d in zip(ins, depths) for ch in tail):
+            return None
+        ins = [sub[:d] for sub, d in zip(ins, depths)]
+        out = out[: len(out) - len(tail)]
+
+    def dims(t, depth):
+        shape = []
+        while depth:
+            if not isinstance(t, (list, tuple)) or not t:
+                return None
+            shape.append(len(t))
+            t = t[0]
+            depth -= 1
+        return shape
+
+    sizes: dict[str, int] = {}
+    for sub, op in zip(ins, operands):
+        shp = dims(op, len(sub))
+        if shp is None:
+            return None
+        for ch, n in zip(sub, shp):
+            if sizes.setdefault(ch, n) != n:
+                return None
+
+    def entry(t, idx):
+        for i in idx:
+            t = t[i]
+        return t if isinstance(t, Poly) else None
+
+    letters = sorted(sizes)
+    summed = [ch for ch in letters if ch not in out]
+    if len(set(out)) != len(out) or any(ch not in sizes for ch in out):
+        return None
+
+    def build(prefix: dict, rest: str):
+        if rest:
+            return [build({**prefix, rest[0]: i}, rest[1:]) for i in range(sizes[rest[0]])]
+        total = Poly()
+        for combo in itertools.product(*(range(sizes[ch]) for ch in summed)):
+            assign = {**prefix, **dict(zip(summed, combo))}
+            term_ = Poly.const(1)
+            for sub, op in zip(ins, operands):
+                x = entry(op, [assign[ch] for ch in sub])
+                if x is None:
+                    raise ValueError('non-polynomial entry')
+                term_ = term_ * x
+            total = total + term_
+        return total
+
+    try:
+        return build({}, out)
+    except ValueError:
+        return None
 
 
 # ------------------------------------------------------------------------ matrices from values
